@@ -200,7 +200,7 @@ def command (sc : Scen) (key : String) (v : List Int) : IO Scen := do
       match envReset orc inst sc.cfg sc.state r0 with
       | .error e => printErr e; pure { sc with env := none }
       | .ok (env, mic) =>
-        IO.println s!"G {b01 (wfB inst)} {b01 (shapeB inst sc.state)} {b01 (conservedB sc.state)} {b01 (capB inst sc.state)} {b01 (restB sc.state)} {b01 (placedB inst sc.state)} {b01 (nonnegB inst)} {b01 (sc.orc.all fun row => row.all fun v => decide (0 ≤ v))} {b01 (detInstB inst)} {b01 (noOutagesB inst)} {b01 (tablesTotalB inst)} {b01 (readyB inst sc.state)} {b01 (outRestB sc.state)} {b01 (outPastB sc.state)}"
+        IO.println s!"G {b01 (wfB inst)} {b01 (shapeB inst sc.state)} {b01 (conservedB sc.state)} {b01 (capB inst sc.state)} {b01 (restB sc.state)} {b01 (placedB inst sc.state)} {b01 (nonnegB inst)} {b01 (sc.orc.all fun row => row.all fun v => decide (0 ≤ v))} {b01 (detInstB inst)} {b01 (noOutagesB inst)} {b01 (tablesTotalB inst)} {b01 (readyB inst sc.state)} {b01 (outRestB sc.state)} {b01 (outPastB sc.state)} {b01 (flexInstB inst)} {b01 (hasAgvB inst)}"
         IO.println s!"L {st.lb} {st.tmax}"
         if sc.obsKind == 0 then
           IO.println s!"B {inst.jobs.length} {inst.machines.length} {maxOpsPerJob inst} {maxOpsPerMachine inst} 1"
